@@ -88,6 +88,17 @@ CHECKS = {
             'as a concatenation per file - for any list), C19_detect_status, C19_merge_output on the command functions. PARTIAL: '
             'argparse, the file system and the exit status are glue covered by running mosromgr.cli.main in a subprocess.',
             'section 5 C19', 'Coq theorems on the command-function model + differential CLI runs in a subprocess'),
+    'C13': ('proof', 'Theorems C13_frame, C13_copy_fresh, C13_discipline (for any disciplined sequence of store primitives the message\'s '
+            'locations stay closed, disjoint from the running order\'s region, and denote the same trees - this merge, later merges, '
+            'other running orders), C13_sharing_refuted / C13_copy_example in a store model of ElementTree nodes. PARTIAL: adherence '
+            'of the 24 merges to the discipline is checked statically (ast of every insert / append / replace call site) and by '
+            'reuse histories on the real code; the merges are not re-modelled over the store.',
+            'section 5 C13', 'Coq theorems on a store (heap) model + static call-site extraction + object-reuse histories'),
+    'C14': ('proof', 'Theorems C14_codec_roundtrip (parse (serialise t) = t for every well-formed tree: nested induction, escaping lemmas), '
+            'C14_wf_reachable and C14_reachable_roundtrip (the fragment is an invariant of every history), C14_envelope, '
+            'C14_cr_refuted (known finding F18). PARTIAL: expat on arbitrary documents is trusted. Correspondence: model serialiser vs '
+            'str(ro), model parser vs from_string, live object vs re-read object after every step of random histories.',
+            'section 5 C14', 'Coq theorems on a serialiser/parser model + extracted-codec differential run + live-vs-reread histories'),
 }
 
 
